@@ -100,6 +100,8 @@ type Plan struct {
 	// Shared: all endpoint lists of one call are windows into one array owned by
 	// the application, each with the following lists in its spare capacity
 	Shared bool `json:"shared,omitempty"`
+	// OwnerClose: before Close() the application closes some pool connections itself
+	OwnerClose bool `json:"owner_close,omitempty"`
 }
 
 //go:norace
@@ -157,6 +159,7 @@ func Generate(r *rand.Rand, profile string, concurrent bool, avoid map[string]bo
 		p.CfgKind = 1 + r.IntN(4)
 	}
 	p.Shared = !p.Alias && r.IntN(4) == 0
+	p.OwnerClose = r.IntN(5) == 0
 	bad := profile == "gmebad"
 	p.Init = genOpts(r, bad && r.IntN(4) == 0, true)
 	if concurrent {
@@ -189,6 +192,10 @@ func Generate(r *rand.Rand, profile string, concurrent bool, avoid map[string]bo
 		case x < 93:
 			o.K = OpAdvance
 			o.A = []int{1, 10, 30, 100}[r.IntN(4)]
+			if r.IntN(5) == 0 {
+				// a quiet period: nothing happens for half a minute to a day
+				o.A = []int{31000, 61000, 600000, 3600000, 86400000}[r.IntN(5)]
+			}
 		case x < 97:
 			o.K = OpConfig
 		default:
@@ -226,13 +233,14 @@ func Generate(r *rand.Rand, profile string, concurrent bool, avoid map[string]bo
 // ---------------------------------------------------------------- fakes
 
 type fakePool struct {
-	s        *sim
-	endpoint string
-	id       int
-	state    connectivity.State
-	ch       chan struct{}
-	closed   int
-	rpcs     int
+	ownerClosed bool
+	s           *sim
+	endpoint    string
+	id          int
+	state       connectivity.State
+	ch          chan struct{}
+	closed      int
+	rpcs        int
 	// configuration index (position in sim.cfgHist) being applied when the pool
 	// was dialled / closed; closedCfg < 0: not closed by an update
 	openedCfg, closedCfg int
@@ -334,9 +342,25 @@ func (p *fakePool) WaitForStateChange(ctx context.Context, src connectivity.Stat
 	return vsync.Select(false, vsync.Recv(ctx.Done()), vsync.Recv(ch)) != 0
 }
 
+var errPoolClosing = errors.New("grpc: the client connection is closing")
+
+// ownerClose: the application, which dialled this connection in its DialFunc,
+// closes it itself. From then on the connection is in SHUTDOWN for good and
+// Close() reports the error grpc reports for a connection already closed.
+//
+//go:norace
+func (p *fakePool) ownerClose() {
+	p.ownerClosed = true
+	p.setState(connectivity.Shutdown)
+}
+
 //go:norace
 func (p *fakePool) Close() error {
 	p.s.k.Yield("pool:Close")
+	if p.ownerClosed {
+		p.closed++
+		return errPoolClosing
+	}
 	if p.closed == 0 {
 		p.closedCfg = p.s.curUpd
 		me := p.s.k.Me()
@@ -1696,7 +1720,25 @@ func (s *sim) heal() {
 			}
 		}
 	}
-	// Close releases everything
+	// Close releases everything - also when the application has meanwhile closed
+	// some of the connections it had dialled itself (their Close() then fails)
+	if s.plan.OwnerClose && !s.plan.Concurrent {
+		n := 0
+		for i, p := range s.pools {
+			if p.closed == 0 && !p.ownerClosed && (i+len(s.rpcs))%2 == 0 {
+				p.ownerClose()
+				n++
+			}
+		}
+		if n > 0 {
+			s.res.Count("fault:application_closed_a_pool_connection_itself", n)
+			s.k.Quiesce()
+			s.kernelFailure()
+			if s.stop {
+				return
+			}
+		}
+	}
 	var err error
 	c := s.call("Close", 1, func() { err = s.gme.Close() })
 	s.k.Quiesce()
